@@ -21,7 +21,7 @@ MTRoles == {"a", "b", "d1r", "d2r", "dflt", "old", "nobody"}
 MTOrder == <<"default", "m", "n", "o", "u">>      \* the harness writes files with sorted keys
 NoDep == [name |-> "", body |-> None]
 MTDefaults ==
-  CASE Scenario \in {"main_edit_dir_override", "dir_edit", "alias_eval"} -> <<>>
+  CASE Scenario \in {"main_edit_dir_override", "dir_edit", "alias_eval", "dir_edit_linked", "merge_mode_dir_edit"} -> <<>>
     [] Scenario = "defaults_permissive" -> << [name |-> "n", body |-> RolesB({"dflt"}), dep |-> NoDep, removal |-> 0] >>
     [] Scenario = "deprecated" -> << [name |-> "n", body |-> RolesB({"dflt"}), dep |-> [name |-> "o", body |-> RolesB({"old"})], removal |-> 0] >>
 
@@ -36,16 +36,22 @@ FsOld ==
     [] Scenario = "defaults_permissive"    -> [f \in {"main", "d1/a"} |-> IF f = "main" THEN File(C2("default", AnyB, "m", RolesB({"a"})), 1) ELSE Gone]
     [] Scenario = "deprecated"             -> [f \in {"main", "d1/a"} |-> IF f = "main" THEN File(C1("o", RolesB({"a"})), 1) ELSE Gone]
     [] Scenario = "alias_eval"             -> [f \in {"main", "d1/a"} |-> IF f = "main" THEN File(C2("n", Alias("m"), "m", RolesB({"a"})), 1) ELSE Gone]
+    \* a directory file whose rules refer to one another, edited as a whole
+    [] Scenario = "dir_edit_linked"        -> [f \in {"main", "d1/a"} |-> IF f = "main" THEN File(C1("u", RolesB({"a"})), 1) ELSE File(C2("n", Alias("m"), "m", RolesB({"a"})), 1)]
+    \* an enforcer in merge mode (overwrite off)
+    [] Scenario = "merge_mode_dir_edit"    -> [f \in {"main", "d1/a"} |-> IF f = "main" THEN File(C2("n", RolesB({"a"}), "m", RolesB({"a"})), 1) ELSE File(C1("n", RolesB({"d1r"})), 1)]
 FsNew ==
   CASE Scenario = "main_edit_dir_override" -> [FsOld EXCEPT !["main"] = File(C2("n", RolesB({"b"}), "m", RolesB({"a"})), 2)]
     [] Scenario = "dir_edit"               -> [FsOld EXCEPT !["d1/a"] = File(C1("n", RolesB({"d2r"})), 2)]
     [] Scenario = "defaults_permissive"    -> [FsOld EXCEPT !["main"] = File(C2("default", AnyB, "m", RolesB({"b"})), 2)]
     [] Scenario = "deprecated"             -> [FsOld EXCEPT !["main"] = File(C1("o", RolesB({"b"})), 2)]
     [] Scenario = "alias_eval"             -> [FsOld EXCEPT !["main"] = File(C2("n", RolesB({"b"}), "m", RolesB({"d2r"})), 2)]
+    [] Scenario = "dir_edit_linked"        -> [FsOld EXCEPT !["d1/a"] = File([NoRules EXCEPT !["m"] = RolesB({"b"}), !["n"] = Alias("o"), !["o"] = RolesB({"a"})], 2)]
+    [] Scenario = "merge_mode_dir_edit"    -> [FsOld EXCEPT !["d1/a"] = File(C1("n", RolesB({"d2r"})), 2)]
 DirSt == [d \in {"d1"} |-> [exists |-> TRUE, mtime |-> 1]]
 \* what is asked: the rule the edit concerns; a rule that lives only in the (unchanged part
 \* of the) main file; an undeclared name that resolves through the permissive default rule
-Query == CASE Scenario \in {"main_edit_dir_override", "dir_edit"} -> {"n", "m"}
+Query == CASE Scenario \in {"main_edit_dir_override", "dir_edit", "dir_edit_linked", "merge_mode_dir_edit"} -> {"n", "m"}
            [] Scenario = "defaults_permissive" -> {"n", "u", "m"}
            [] OTHER -> {"n"}
 
